@@ -126,11 +126,13 @@ Definition chk (c : scase) : bool :=
   let '(w, good) := run_case valid (Some mem0) cwd0 its in
   good && list_eqb tstep_eqb (trace w) tr.
 
-(* what the model computes, for diagnostics *)
+(* what the model computes, for diagnostics (lengths instead of contents) *)
 Definition show (c : scase) :=
   let '(valid, mem0, cwd0, its, tr) := c in
   let '(w, good) := run_case valid (Some mem0) cwd0 its in
-  (good, trace w, hist w, map (fun e => (fst e, blen (snd e))) (files w), option_map blen (mem w)).
+  (good, list_eqb tstep_eqb (trace w) tr, trace w,
+   map (fun h => match h with HDone d nb ok => (d, option_map blen nb, ok, false) | HDir d c l => (d, None, c, l) end) (hist w),
+   map (fun e => (fst e, blen (snd e))) (files w), option_map blen (mem w)).
 
 (* kill test: the file held `prev`; a store of `new` was in flight (or had not
    begun, or had just completed) when the process was killed.  The observed
